@@ -64,13 +64,17 @@ Enter(t, f) ==
   /\ Len(stack[t]) < MaxDepth
   /\ stack' = [stack EXCEPT ![t] = Append(@, f)]
   /\ Log([op |-> "enter", t |-> t, f |-> f])
+FailEnter(t, f) ==      \* a context whose construction raises (e.g. an unknown backend name): nothing it carries may take effect
+  /\ Len(stack[t]) < MaxDepth
+  /\ UNCHANGED stack
+  /\ Log([op |-> "fail_enter", t |-> t, f |-> f])
 Exit(t, how) ==
   /\ stack[t] # <<>>
   /\ stack' = [stack EXCEPT ![t] = SubSeq(@, 1, Len(@) - 1)]
   /\ Log([op |-> "exit", t |-> t, how |-> how])
 
 Next == /\ (~Gen \/ Len(hist) < MaxLen)
-        /\ \E t \in Threads : (\E f \in Frames : Enter(t, f)) \/ (\E how \in {"return", "exception"} : Exit(t, how))
+        /\ \E t \in Threads : (\E f \in Frames : Enter(t, f) \/ (Gen /\ FailEnter(t, f))) \/ (\E how \in {"return", "exception"} : Exit(t, how))
 Spec == Init /\ [][Next]_vars
 
 \* --- properties of the specification itself
